@@ -239,6 +239,31 @@ Proof.
   unfold Fs.fs_work. rewrite (retry_once _ _ _ _ _ _ Hact Hei). reflexivity.
 Qed.
 
+(* req->result is the errno of the system call itself: uv__fs_work reads errno
+   right after the call of the X(...) table returns, nothing of libuv runs in
+   between except uv__free in the helpers' error paths, and uv__free saves and
+   restores errno (uv-common.c:81-90; the model has no step there).  For the
+   operations whose action is the bare call: *)
+Definition plain_action (op : fsop) : bool :=
+  match op with
+  | OClose _ | OStat _ | OLstat _ | OFstat _ | ORead _ _ _ | OWrite _ _ _ => false
+  | _ => true
+  end.
+
+Theorem result_is_call_errno :
+  forall fuel op st r st',
+  plain_action op = true -> posix (work op) st = (r, st') ->
+  ((rc out r =? -1) && (perrno out r =? EINTR)) = false ->
+  fs_work fuel op st = (result_z out r, pout out r, st') /\
+  (rc out r = -1 -> result_z out r = - perrno out r).
+Proof.
+  intros fuel op st r st' Hpl Hp Hn. split.
+  - assert (Hact : action fs out posix no_out fuel op st = (r, st'))
+      by (destruct op; try discriminate Hpl; exact Hp).
+    unfold Fs.fs_work. rewrite (retry_once _ _ _ _ _ _ Hact Hn). reflexivity.
+  - intros H. unfold result_z. now rewrite H.
+Qed.
+
 (* -EOPNOTSUPP in the completion: the request is handed to the thread pool *)
 Theorem ring_eopnotsupp_reposts :
   forall fuel op s st r st',
